@@ -48,7 +48,7 @@ Fixpoint script_items (evs : list sevent) : list Z :=
   | _ :: t => script_items t
   end.
 
-(* SScript is a stream-only source; the iterator reading keeps its items only. *)
+(* SScript/SScriptNC are stream-only sources; the iterator reading keeps their items only. *)
 Definition isrc_init (s : source) : isrc :=
   match s with
   | SSlice l => ISlice l
@@ -57,6 +57,7 @@ Definition isrc_init (s : source) : isrc :=
   | SEmpty => IEmpty
   | SChan l => ISlice l
   | SScript evs => ISlice (script_items evs)
+  | SScriptNC evs => ISlice (script_items evs)
   end.
 
 Definition isrc_next (s : isrc) : option Z * isrc :=
